@@ -109,7 +109,7 @@ func (r Ring) DivRoundByLastModulusNTT(p0, buff, p1 Poly) {
 	}
 }
 
-// DivRoundByLastModulus divides (rounded) the polynomial by its last modulus. The input must be in the NTT domain.
+// DivRoundByLastModulus divides (rounded) the polynomial by its last modulus. The input must be in the coefficient domain.
 // Output poly level must be equal or one less than input level.
 func (r Ring) DivRoundByLastModulus(p0, p1 Poly) {
 
@@ -121,9 +121,12 @@ func (r Ring) DivRoundByLastModulus(p0, p1 Poly) {
 	r.SubRings[level].AddScalar(p0.Coeffs[level], pHalf, p0.Coeffs[level])
 
 	for i, s := range r.SubRings[:level] {
-		s.AddScalarLazyThenNegTwoModulusLazy(p0.Coeffs[i], s.Modulus-BRedAdd(pHalf, s.Modulus, s.BRedConstant), p0.Coeffs[i])
-		s.AddLazyThenMulScalarMontgomery(p0.Coeffs[level], p0.Coeffs[i], r.RescaleConstants[level-1][i], p1.Coeffs[i])
+		s.AddScalarLazyThenNegTwoModulusLazy(p0.Coeffs[i], s.Modulus-BRedAdd(pHalf, s.Modulus, s.BRedConstant), p1.Coeffs[i])
+		s.AddLazyThenMulScalarMontgomery(p0.Coeffs[level], p1.Coeffs[i], r.RescaleConstants[level-1][i], p1.Coeffs[i])
 	}
+
+	// The input is left as it was given: only its last residue was centered in place
+	r.SubRings[level].SubScalar(p0.Coeffs[level], pHalf, p0.Coeffs[level])
 }
 
 // DivRoundByLastModulusManyNTT divides (rounded) sequentially nbRescales times the polynomial by its last modulus. The input must be in the NTT domain.
